@@ -124,9 +124,9 @@ Definition get_matching_blocks (a b : list T) : option (list block) :=
   end.
 
 (* ---- get_opcodes ------------------------------------------------------------ *)
-Inductive tag := Replace | Delete | Insert | Equal.
+Inductive optag := Replace | Delete | Insert | Equal.
 
-Record opcode := mkop { o_tag : tag; o_i1 : nat; o_i2 : nat; o_j1 : nat; o_j2 : nat }.
+Record opcode := mkop { o_tag : optag; o_i1 : nat; o_i2 : nat; o_j1 : nat; o_j2 : nat }.
 
 Fixpoint opcodes_of (bl : list block) (i j : nat) : list opcode :=
   match bl with
